@@ -129,6 +129,10 @@ func (r *c12Renderer) block(b *c12Block, lv int, ind string) string {
 		switch b.kind {
 		case 'e':
 			sb.WriteString(fmt.Sprintf("%sraise(\"e%d\")\n", in, id))
+		case 'E':
+			sb.WriteString(in + "raise(\"c12-uncaught\")\n")
+		case 'p':
+			sb.WriteString(in + "x.panic()\n")
 		case 'r':
 			sb.WriteString(in + "return 1\n")
 		case 'b':
@@ -147,7 +151,7 @@ func (r *c12Renderer) wrapped(b *c12Block, ind string) string {
 	r.id++
 	id := r.id
 	switch b.kind {
-	case 'n':
+	case 'n', 'E', 'p': // E (uncaught error) and p (Go panic) end the whole role execution
 		return r.block(b, 1, ind)
 	case 'e':
 		return ind + "try {\n" + r.block(b, 1, ind+"    ") + ind + "} except {\n" + ind + "    x.yield()\n" + ind + "}\n"
@@ -176,7 +180,7 @@ func c12Source(roles [][]*c12Block) string {
 	}
 	src := "ca := 0\ncb := 0\ncc := 0\n" + strings.Join(r.funcs, "") + strings.Join(works, "")
 	for i := range roles {
-		src += fmt.Sprintf("sink s%d\n    kindmatch [ \"w%d\" ],\n    {\n        work%d()\n    }\n", i, i, i)
+		src += fmt.Sprintf("sink s%d\n    kindmatch [ \"w%d\" ],\n    {\n        work%d()\n        x.fin()\n    }\n", i, i, i)
 	}
 	return src
 }
@@ -289,6 +293,7 @@ type c12Run struct {
 	pairs   int
 	failed  int
 	abort   bool
+	fin     func()
 }
 
 var c12cur *c12Run
@@ -353,6 +358,13 @@ func c12Setup() {
 			r.inside[n][key]--
 		}
 		r.mu.Unlock()
+		return nil, nil
+	})
+	reg("panic", func(tid, key uint64, args []interface{}) (interface{}, error) {
+		panic("c12-panic")
+	})
+	reg("fin", func(tid, key uint64, args []interface{}) (interface{}, error) {
+		c12cur.fin()
 		return nil, nil
 	})
 	reg("yield", func(tid, key uint64, args []interface{}) (interface{}, error) {
@@ -429,6 +441,7 @@ func c12Exec(payload string) string {
 	}
 	run.meetC = sync.NewCond(&run.meetMu)
 	c12cur = run
+	run.fin = func() {} // set below
 
 	nSink, nDirect := 0, 0
 	switch mode {
@@ -473,6 +486,12 @@ func c12Exec(payload string) string {
 	doneN := 0
 	var errs []string
 	var wg sync.WaitGroup
+	termN := 0
+	terminated := func() { // a role execution ended by an uncaught error or a panic (as the program says)
+		doneMu.Lock()
+		termN++
+		doneMu.Unlock()
+	}
 	finished := func(e error) {
 		doneMu.Lock()
 		doneN++
@@ -495,6 +514,7 @@ func c12Exec(payload string) string {
 		}
 	}
 
+	run.fin = func() { finished(nil) }
 	// direct evaluation: one goroutine per thread; every goroutine asks for its own thread id,
 	// all of them at the same moment (a generator handing out one id twice makes two threads
 	// "re-enter" each other's blocks)
@@ -528,7 +548,22 @@ func c12Exec(payload string) string {
 			}
 			var e error
 			for k := 0; k < iters && e == nil; k++ {
-				_, e = call.Runtime.Eval(vs, make(map[string]interface{}), tid)
+				func() {
+					defer func() {
+						if r := recover(); r != nil {
+							if fmt.Sprint(r) == "c12-panic" {
+								terminated()
+							} else {
+								e = fmt.Errorf("panic: %v", r)
+							}
+						}
+					}()
+					_, e = call.Runtime.Eval(vs, make(map[string]interface{}), tid)
+					if e != nil && strings.Contains(e.Error(), "c12-uncaught") {
+						terminated()
+						e = nil
+					}
+				}()
 			}
 			finished(e)
 		}(i)
@@ -538,9 +573,12 @@ func c12Exec(payload string) string {
 	// sinks: nSink workers, nSink*iters events posted from several goroutines
 	if nSink > 0 {
 		erp.Processor.SetRootMonitorErrorObserver(func(rm *engine.RootMonitor) {
-			doneMu.Lock()
-			errs = append(errs, fmt.Sprint(rm.AllErrors()))
-			doneMu.Unlock()
+			if txt := fmt.Sprint(rm.AllErrors()); strings.Contains(txt, "c12-uncaught") {
+				terminated()
+				finished(nil) // the sink execution is over
+			} else {
+				finished(fmt.Errorf("%v", txt))
+			}
 		})
 		erp.Processor.Start()
 		nEvents := nSink * iters
@@ -554,10 +592,9 @@ func c12Exec(payload string) string {
 				for k := p; k < nEvents; k += posters {
 					role := k % len(roles)
 					ev := engine.NewEvent(fmt.Sprintf("ev%d", k), []string{fmt.Sprintf("w%d", role)}, nil)
+					// (a sink execution counts as done when it reaches x.fin() or ends by its uncaught error)
 					if _, e := erp.Processor.AddEvent(ev, erp.Processor.NewRootMonitor(nil, nil)); e != nil {
 						finished(e)
-					} else {
-						finished(nil)
 					}
 				}
 			}(p)
@@ -629,7 +666,29 @@ wait:
 	run.meetMu.Lock()
 	pairs := run.pairs
 	run.meetMu.Unlock()
-	res := fmt.Sprintf("occ=%s cnt=%s done=%d/%d meet=%d", occ, strings.Join(cnt, ","), dn, total, pairs)
+	doneMu.Lock()
+	tn := termN
+	doneMu.Unlock()
+	// the real end state: no owner registered, every named mutex free
+	endOwn, endLck := -1, -1
+	if !deadlock {
+		erp.MutexesMutex.Lock()
+		endOwn, endLck = 0, 0
+		for _, v := range erp.MutexeOwners {
+			if v != 0 {
+				endOwn++
+			}
+		}
+		for _, m := range erp.Mutexes {
+			if m.TryLock() {
+				m.Unlock()
+			} else {
+				endLck++
+			}
+		}
+		erp.MutexesMutex.Unlock()
+	}
+	res := fmt.Sprintf("occ=%s cnt=%s done=%d/%d meet=%d term=%d end=%d,%d", occ, strings.Join(cnt, ","), dn, total, pairs, tn, endOwn, endLck)
 	if es != "" {
 		res += " errors=" + hx(es)
 	}
@@ -661,6 +720,7 @@ func c12Ids(g, per int, variant string) string {
 	var proc engine.Processor
 	var procTask func(tid uint64) // what the processor's rule does in the current phase
 	cycles := 0                   // restarts of the pool after the first phase
+	var replace func()            // variant x: what happens between the phases
 	switch variant[0] {
 	case 'e':
 		erp := interpreter.NewECALRuntimeProvider("c12", nil, &memLog{})
@@ -681,6 +741,12 @@ func c12Ids(g, per int, variant string) string {
 		tp = proc.ThreadPool()
 		next = erp.NewThreadID
 		cycles, _ = strconv.Atoi(variant[1:])
+	case 'x': // ids before and after erp.Processor is REPLACED: unique per pool only (two phases)
+		erp := interpreter.NewECALRuntimeProvider("c12", nil, &memLog{})
+		defer erp.Cron.Stop()
+		next = erp.NewThreadID
+		cycles = 1
+		replace = func() { erp.Processor = engine.NewProcessor(g) }
 	case 'r': // bare pool life-cycle: SetWorkerCount … JoinAll, again
 		tp = pool.NewThreadPool()
 		next = tp.NewThreadID
@@ -693,6 +759,9 @@ func c12Ids(g, per int, variant string) string {
 	dup, zero, n, wk, wdup := 0, 0, 0, 0, 0
 	_ = procTask
 	for phase := 0; phase <= cycles; phase++ {
+		if phase > 0 && replace != nil {
+			replace()
+		}
 		got := make([][]uint64, g)
 		gate := make(chan struct{})
 		var ready, wg sync.WaitGroup
@@ -830,6 +899,10 @@ func init() {
 					g.Emit(fmt.Sprintf("I %d %d 0 %s", n, 30000/n+1, v))
 				}
 			}
+			// ids are unique per POOL: replacing erp.Processor (an exported field) starts a new generator
+			g.Count("mode I")
+			g.Count("id-generator after the processor was replaced")
+			g.Emit("I 4 1000 0 x")
 			// a thread whose id was handed out before a restart of the pool sits in the blocks
 			// that the sinks on the restarted workers use
 			for _, n := range []int{4, 8, 16} {
@@ -851,8 +924,19 @@ func init() {
 			for _, n := range []int{2, 4, 8, 16} {
 				emit("D", n, 4, "a!n()|b!n()")
 				emit("D", n, 3, "an(a!e())|br(bn(b!n()))")
+				emit("D", n, 3, "a!r()|c!n()")
+				emit("D", n, 3, "bn(b!b())|cn(c!e())")
 				g.Count("rendezvous")
 			}
+			// an error / a Go panic that ENDS the thread while it holds the lock (nested too)
+			for _, mode := range []string{"D", "S", "M", "L"} {
+				emit(mode, 8, 6, "an()aE()")
+				emit(mode, 16, 4, "an(bn())aE(aE^(bE^()))|bE()")
+				g.Count("uncaught error ends the thread")
+			}
+			emit("D", 8, 6, "an()ap()")
+			emit("D", 16, 4, "ap(ap^(bp^()))|bn()bp()|cE()")
+			g.Count("panic ends the thread")
 			// (only with directly evaluated threads: which queued event a pool worker takes next is
 			// not under the harness's control, so a worker pool may legitimately starve one side)
 			// lock held by a thread that fails: later entrants must get in
@@ -885,7 +969,18 @@ func init() {
 				if iters > 12 {
 					iters = 12
 				}
-				emit([]string{"S", "D", "M", "L"}[g.R.Intn(4)], threads, iters, c12RolesText(roles))
+				mode := []string{"S", "D", "M", "L"}[g.R.Intn(4)]
+				for _, role := range roles {
+					// the last block of a role may end the whole execution: uncaught error, or (threads
+					// the harness owns can recover it) a Go panic
+					switch last := role[len(role)-1]; {
+					case g.R.Intn(5) == 0:
+						c12SetChainKind(last, 'E')
+					case mode == "D" && g.R.Intn(5) == 0:
+						c12SetChainKind(last, 'p')
+					}
+				}
+				emit(mode, threads, iters, c12RolesText(roles))
 			}
 		},
 	})
